@@ -4,6 +4,8 @@ import itertools
 import numpy as np
 from hypothesis import strategies as st
 
+from mv import hperm
+
 from mv import gen_geom, geom, mf, ref_match, repl
 from mv.quiet import silenced
 from mv.runner import HypPart, Violation
@@ -30,7 +32,7 @@ def overlap_case(draw):
     alphabet = draw(st.sampled_from([["C", "N"], ["N", "C"], ["C", "C"], ["O", "H"], ["C", "Cl"], ["Na", "N"], ["Si", "S"]]))
     pos, els = [], []
     if kind == "star":
-        k = draw(st.integers(2, 5))
+        k = draw(hperm.integers(2, 5))
         pos.append(np.zeros(3))
         els.append(alphabet[0])
         dirs = [np.array(d, float) for d in ([1, 0, 0], [-1, 0, 0], [0, 1, 0], [0, -1, 0], [0, 0, 1], [0, 0, -1])]
@@ -43,7 +45,7 @@ def overlap_case(draw):
         if draw(st.booleans()) and k >= 2:
             pat_idx = [1, 0, 2]        # arm-centre-arm (two arms at 180 or 90 degrees)
     else:
-        L = draw(st.integers(3, 8))
+        L = draw(hperm.integers(3, 8))
         ang = 0.0 if kind == "chain" else np.radians(draw(st.sampled_from([30.0, 54.75])))
         p = np.zeros(3)
         for i in range(L):
@@ -52,8 +54,8 @@ def overlap_case(draw):
             step = draw(st.sampled_from([1.0, 1.0, 1.5]))
             sgn = 1 if i % 2 == 0 else -1
             p = p + step * np.array([np.cos(ang), sgn * np.sin(ang), 0.0])
-        m = draw(st.integers(2, min(4, L)))
-        start = draw(st.integers(0, L - m))
+        m = draw(hperm.integers(2, min(4, L)))
+        start = draw(hperm.integers(0, L - m))
         pat_idx = list(range(start, start + m))
         if draw(st.booleans()):
             pat_idx = pat_idx[::-1]
@@ -71,7 +73,7 @@ def overlap_case(draw):
     cell = np.diag([side, side * draw(st.sampled_from([1.0, 1.3])), side * draw(st.sampled_from([1.0, 1.6]))])
     shift = [draw(st.floats(0, side)) for _ in range(3)]
     spos = geom.wrap(cell, pos + np.array(shift))
-    nby = draw(st.integers(0, 3))
+    nby = draw(hperm.integers(0, 3))
     sels = list(els)
     extra = []
     for _ in range(nby):
@@ -79,20 +81,20 @@ def overlap_case(draw):
         sels.append(draw(st.sampled_from(["Zr", "Cu"])))
     spos = np.vstack([spos] + [e[None, :] for e in extra]) if extra else spos
     N = len(sels)
-    order = list(draw(st.permutations(range(N))))
+    order = list(draw(hperm.permutations(range(N))))
     spos = spos[order]
     sels = [sels[i] for i in order]
-    nb = draw(st.integers(0, 5))
+    nb = draw(hperm.integers(0, 5))
     bonds = []
     for _ in range(nb):
-        i = draw(st.integers(0, N - 1))
-        j = draw(st.integers(0, N - 1))
+        i = draw(hperm.integers(0, N - 1))
+        j = draw(hperm.integers(0, N - 1))
         if i != j and [i, j] not in bonds and [j, i] not in bonds:
             bonds.append([i, j])
     fk = draw(st.sampled_from(["one", "one", "one", "frac"]))
     return {"cell": cell.tolist(), "spos": spos.tolist(), "sels": sels, "ppos": ppos.tolist(), "pels": pels,
             "rpos": rp["pos"], "rels": rp["els"], "shared": rp["shared"], "atol": atol, "hints": [None, None, None],
-            "seeds": [draw(st.integers(0, 2 ** 31 - 1)), draw(st.integers(0, 2 ** 31 - 1))],
+            "seeds": [draw(hperm.integers(0, 2 ** 31 - 1)), draw(hperm.integers(0, 2 ** 31 - 1))],
             "replace_all": draw(st.booleans()), "ignore": draw(st.sampled_from([False, False, True])),
             "f": 1.0 if fk == "one" else draw(st.sampled_from([0.5, 0.34, 0.75, 0.2])),
             "bonds": bonds, "rcharges": [round(repl.R_TAG0 + 0.01 * j, 6) for j in range(len(rp["pos"]))],
